@@ -21,6 +21,7 @@ func init() {
 	generators["c08edges"] = genC08edges
 	generators["c09"] = genC09
 	generators["c10"] = genC10
+	generators["c10busy"] = genC10busy
 	generators["c11"] = genC11
 	generators["c12"] = genC12
 	generators["c12accept"] = genC12accept
@@ -377,6 +378,26 @@ func genC10(g *Gen) {
 					s.emit(g)
 				}
 			}
+		}
+	}
+}
+
+// C10 (continued): the Unbind arrives while many handlers of the connection are still running
+func genC10busy(g *Gen) {
+	for _, k := range []int{31, 32, 33, 64} {
+		for _, unbindRoute := range []string{"1", "0"} {
+			s := newScen("fixed:unbind=" + unbindRoute)
+			s.op("run 1 1")
+			s.op("connect")
+			var items []string
+			for i := 0; i < k; i++ {
+				items = append(items, s.req("normal", "b2", "w"))
+			}
+			s.send(0, items...)
+			s.send(0, s.req("unbind"), s.req("normal", "w"))
+			s.op("release 2")
+			s.op("stop")
+			s.emit(g)
 		}
 	}
 }
